@@ -21,6 +21,7 @@ struct Scenario {
     std::vector<Action> script;
     std::map<int, std::vector<Action>> on_complete;     // op index -> actions performed inside its completion handler
     std::optional<Action> inject;                       // injected at any choice point (F_INJECT)
+    bool may_end_early = false;                         // the script is not expected to run to its end even undisturbed (vacuity guard off)
     size_t faults_from_pos = 0;                         // no fault / reordering is offered before the script has reached this position
     std::vector<Action> inject_more;                    // further actions performed in the same step as the injection (no handler runs in between)
     std::vector<Action> after_inject;                   // actions appended to the script once the injection happened
